@@ -789,3 +789,914 @@ Definition fetch_judge (a : Z * list (bytes * list offset_fetch_part)) : verdict
   | inr c => VFatal c
   end.
 
+Lemma commit_loop_eq fuel group req : forall attempt s,
+  commit_loop fuel group req attempt s = retry_loop dec_offset_commit_resp commit_judge fuel group req attempt s.
+Proof.
+  induction fuel as [|f IH]; intros attempt s; [reflexivity|].
+  cbn [commit_loop retry_loop]. unfold exchange_attempt.
+  destruct (get_group_coordinator group s) as [[h|e|w] s1] eqn:Eg.
+  - rewrite !(mbind_ok _ _ s h s1 Eg).
+    destruct (send_receive dec_offset_commit_resp h req s1) as [[[c tps]|e|w] s2] eqn:Es.
+    + rewrite (mbind_ok _ _ s1 _ s2 Es). unfold commit_judge. cbn [snd].
+      destruct (commit_scan tps) as [|code reset|c0]; try reflexivity.
+      unfold mbind at 1. unfold get_client at 1. unfold after_retry. destruct reset.
+      * unfold mbind at 1. rewrite set_cs_eq.
+        destruct (attempt <? retry_max_attempts (cfg (cl s2))); [apply IH|reflexivity].
+      * unfold mbind at 1. unfold ret.
+        destruct (attempt <? retry_max_attempts (cfg (cl s2))); [apply IH|reflexivity].
+    + rewrite (mbind_err _ _ s1 _ s2 Es). reflexivity.
+    + rewrite (mbind_panic _ _ s1 _ s2 Es). reflexivity.
+  - rewrite !(mbind_err _ _ s e s1 Eg). reflexivity.
+  - rewrite !(mbind_panic _ _ s w s1 Eg). reflexivity.
+Qed.
+
+Lemma group_fetch_loop_eq fuel group req : forall attempt s,
+  group_fetch_loop fuel group req attempt s = retry_loop dec_offset_fetch_resp fetch_judge fuel group req attempt s.
+Proof.
+  induction fuel as [|f IH]; intros attempt s; [reflexivity|].
+  cbn [group_fetch_loop retry_loop]. unfold exchange_attempt.
+  destruct (get_group_coordinator group s) as [[h|e|w] s1] eqn:Eg.
+  - rewrite !(mbind_ok _ _ s h s1 Eg).
+    destruct (send_receive dec_offset_fetch_resp h req s1) as [[[c tps]|e|w] s2] eqn:Es.
+    + rewrite (mbind_ok _ _ s1 _ s2 Es). unfold fetch_judge. cbn [snd].
+      destruct (group_scan tps []) as [[m|[code reset]]|c0]; try reflexivity.
+      unfold mbind at 1. unfold get_client at 1. unfold after_retry. destruct reset.
+      * unfold mbind at 1. rewrite set_cs_eq.
+        destruct (attempt <? retry_max_attempts (cfg (cl s2))); [apply IH|reflexivity].
+      * unfold mbind at 1. unfold ret.
+        destruct (attempt <? retry_max_attempts (cfg (cl s2))); [apply IH|reflexivity].
+    + rewrite (mbind_err _ _ s1 _ s2 Es). reflexivity.
+    + rewrite (mbind_panic _ _ s1 _ s2 Es). reflexivity.
+  - rewrite !(mbind_err _ _ s e s1 Eg). reflexivity.
+  - rewrite !(mbind_panic _ _ s w s1 Eg). reflexivity.
+Qed.
+
+(* ---- one attempt ------------------------------------------------------------------------------- *)
+Lemma exchange_attempt_cfg {A} (d : dec A) group req :
+  keeps (fun s s' => ext s s' /\ same_cfgc s s') (exchange_attempt d group req).
+Proof.
+  assert (P : preorder (fun s s' => ext s s' /\ same_cfgc s s')).
+  { split; [intros s; split; [apply ext_refl|reflexivity]|].
+    intros s s1 s2 [E1 C1] [E2 C2]. split; [eapply ext_trans; eassumption|]. unfold same_cfgc in *. congruence. }
+  apply keeps_bind; [exact P|apply ggc_cfg|]. intros h s r s' H.
+  split; [eapply tracks_ext; [apply tracks_send_receive|exact H]|].
+  apply (frame_send_receive _ _ _ _ _ _ _ H).
+Qed.
+
+Lemma exchange_attempt_att {A} (d : dec A) group p s r s' :
+  exchange_attempt d group (Ok p) s = (r, s') -> gc_short (frame p) (client_id (cfg (cl s))) group ->
+  att_le (frame p) 1 s s'.
+Proof.
+  intros H Hs. unfold exchange_attempt in H. bind_inv H h s1 H1 H2.
+  - change 1 with (0 + 1). eapply att_le_trans; [eapply ggc_quiet; eassumption|eapply send_receive_att; exact H2].
+  - eapply att_le_mono; [|eapply ggc_quiet; eassumption]. lia.
+  - eapply att_le_mono; [|eapply ggc_quiet; eassumption]. lia.
+Qed.
+
+Lemma exchange_attempt_nofuel {A} (d : dec A) group req : nf d -> req <> Err EOutOfFuel ->
+  nofuel (exchange_attempt d group req).
+Proof.
+  intros Hd Hq. apply nofuel_bind; [apply ggc_nofuel|]. intros h. apply send_receive_nofuel; assumption.
+Qed.
+
+Lemma send_receive_ok_shrinks_any {A} (d : dec A) h req s a s' :
+  send_receive d h req s = (Ok a, s') -> (length (script s') < length (script s))%nat.
+Proof.
+  intros H. unfold send_receive in H. bind_inv H u s1 H1 H2; try discriminate.
+  bind_inv H2 z s2 H3 H4; try discriminate.
+  destruct (send_request_ok_inv _ _ _ _ _ H3) as [p [_ Hl]].
+  pose proof (ext_script_le _ _ (tracks_ext _ (tracks_get_conn h) _ _ _ H1)).
+  pose proof (ext_script_le _ _ (tracks_ext _ (tracks_get_response d h) _ _ _ H4)). lia.
+Qed.
+
+Lemma exchange_attempt_ok_shrinks {A} (d : dec A) group req s a s' :
+  exchange_attempt d group req s = (Ok a, s') -> (length (script s') < length (script s))%nat.
+Proof.
+  intros H. unfold exchange_attempt in H. bind_inv H h s1 H1 H2; try discriminate.
+  pose proof (ext_script_le _ _ (proj1 (ggc_cfg _ _ _ _ H1))).
+  pose proof (send_receive_ok_shrinks_any _ _ _ _ _ _ H2). lia.
+Qed.
+
+Lemma after_retry_quiet fr group reset s : quiet fr s (after_retry group reset s).
+Proof. unfold after_retry. destruct reset; [apply with_cs_quiet|apply preorder_quiet]. Qed.
+Lemma after_retry_cfg group reset s : cfg (cl (after_retry group reset s)) = cfg (cl s).
+Proof. unfold after_retry. destruct reset; reflexivity. Qed.
+Lemma after_retry_script group reset s : script (after_retry group reset s) = script s.
+Proof. unfold after_retry. destruct reset; reflexivity. Qed.
+
+(* ---- the generic theorems ------------------------------------------------------------------------ *)
+Lemma retry_loop_bound {A B} (d : dec A) (judge : A -> verdict B) group p : forall fuel attempt s r s',
+  retry_loop d judge fuel group (Ok p) attempt s = (r, s') ->
+  gc_short (frame p) (client_id (cfg (cl s))) group ->
+  att_le (frame p) (Z.max 1 (retry_max_attempts (cfg (cl s)) - attempt + 1)) s s' /\ same_cfgc s s'.
+Proof.
+  induction fuel as [|f IH]; intros attempt s r s' H Hs.
+  - inversion H; subst. split; [apply att_le_refl; lia|reflexivity].
+  - cbn [retry_loop] in H.
+    destruct (exchange_attempt d group (Ok p) s) as [[a|e|w] s2] eqn:E;
+      pose proof (exchange_attempt_att _ _ _ _ _ _ E Hs) as Q1;
+      destruct (exchange_attempt_cfg _ _ _ _ _ _ E) as [_ C1]; unfold same_cfgc in C1.
+    + destruct (judge a) as [b|c|code reset].
+      * inversion H; subst. split; [eapply att_le_mono; [|exact Q1]; lia|exact C1].
+      * inversion H; subst. split; [eapply att_le_mono; [|exact Q1]; lia|exact C1].
+      * pose proof (after_retry_quiet (frame p) group reset s2) as Q2.
+        pose proof (after_retry_cfg group reset s2) as C2.
+        destruct (attempt <? retry_max_attempts (cfg (cl s2))) eqn:Ea.
+        -- destruct (IH _ _ _ _ H) as [Q3 C3]; [rewrite C2, C1; exact Hs|]. unfold same_cfgc in C3.
+           rewrite C2, C1 in Q3. rewrite C1 in Ea. split; [|unfold same_cfgc; congruence].
+           eapply att_le_mono; [|eapply att_le_trans; [eapply att_le_trans; [exact Q1|exact Q2]|exact Q3]]. lia.
+        -- inversion H; subst. split; [|unfold same_cfgc; congruence].
+           eapply att_le_mono; [|eapply att_le_trans; [exact Q1|exact Q2]]. lia.
+    + inversion H; subst. split; [eapply att_le_mono; [|exact Q1]; lia|exact C1].
+    + inversion H; subst. split; [eapply att_le_mono; [|exact Q1]; lia|exact C1].
+Qed.
+
+Lemma retry_loop_nofuel {A B} (d : dec A) (judge : A -> verdict B) group req : nf d -> req <> Err EOutOfFuel ->
+  forall fuel attempt s r s', retry_loop d judge fuel group req attempt s = (r, s') ->
+    (length (script s) < fuel)%nat -> r <> Err EOutOfFuel.
+Proof.
+  intros Hd Hq. induction fuel as [|f IH]; intros attempt s r s' H Hl; [lia|].
+  cbn [retry_loop] in H. destruct (exchange_attempt d group req s) as [[a|e|w] s2] eqn:E.
+  - pose proof (exchange_attempt_ok_shrinks _ _ _ _ _ _ E) as Hsh.
+    destruct (judge a) as [b|c|code reset]; try (inversion H; subst; discriminate).
+    destruct (attempt <? retry_max_attempts (cfg (cl s2))); [|inversion H; subst; discriminate].
+    eapply IH; [exact H|]. rewrite after_retry_script. lia.
+  - inversion H; subst. intros Hr. inversion Hr; subst. exact (exchange_attempt_nofuel d group req Hd Hq _ _ _ E eq_refl).
+  - inversion H; subst. discriminate.
+Qed.
+
+(* n attempts in a row got a retryable verdict and were retried *)
+Inductive loop_retried {A B} (d : dec A) (judge : A -> verdict B) (group : bytes) (req : res bytes)
+  : nat -> Z -> st -> st -> Prop :=
+| RR_O attempt s : loop_retried d judge group req O attempt s s
+| RR_S n attempt s a s2 code reset sk :
+    exchange_attempt d group req s = (Ok a, s2) -> judge a = VRetry code reset ->
+    attempt < retry_max_attempts (cfg (cl s2)) ->
+    loop_retried d judge group req n (attempt + 1) (after_retry group reset s2) sk ->
+    loop_retried d judge group req (S n) attempt s sk.
+
+Definition loop_final {A B} (d : dec A) (judge : A -> verdict B) (group : bytes) (req : res bytes)
+           (last_attempt : Z) (sk : st) (r : res B) (s' : st) : Prop :=
+  match exchange_attempt d group req sk with
+  | (Ok a, s2) =>
+      match judge a with
+      | VDone b => r = Ok b /\ s' = s2
+      | VFatal c => r = Err (EKafka c) /\ s' = s2
+      | VRetry code reset => r = Err (EKafka code) /\ s' = after_retry group reset s2 /\
+                             retry_max_attempts (cfg (cl s2)) <= last_attempt
+      end
+  | (Err e, s2) => r = Err e /\ s' = s2
+  | (Panic w, s2) => r = Panic w /\ s' = s2
+  end.
+
+Lemma retry_loop_result {A B} (d : dec A) (judge : A -> verdict B) group req : forall fuel attempt s r s',
+  retry_loop d judge fuel group req attempt s = (r, s') -> (length (script s) < fuel)%nat ->
+  exists n sk, loop_retried d judge group req n attempt s sk /\
+               loop_final d judge group req (attempt + Z.of_nat n) sk r s'.
+Proof.
+  induction fuel as [|f IH]; intros attempt s r s' H Hl; [lia|].
+  cbn [retry_loop] in H. destruct (exchange_attempt d group req s) as [[a|e|w] s2] eqn:E.
+  - destruct (judge a) as [b|c|code reset] eqn:Ej.
+    + inversion H; subst. exists O, s. split; [constructor|]. unfold loop_final. rewrite E, Ej. split; reflexivity.
+    + inversion H; subst. exists O, s. split; [constructor|]. unfold loop_final. rewrite E, Ej. split; reflexivity.
+    + destruct (attempt <? retry_max_attempts (cfg (cl s2))) eqn:Ea.
+      * pose proof (exchange_attempt_ok_shrinks _ _ _ _ _ _ E) as Hsh.
+        destruct (IH _ _ _ _ H) as (n & sk & Hr & Hf); [rewrite after_retry_script; lia|].
+        exists (S n), sk. split; [eapply RR_S; [exact E|exact Ej|lia|exact Hr]|].
+        replace (attempt + Z.of_nat (S n)) with (attempt + 1 + Z.of_nat n) by lia. exact Hf.
+      * inversion H; subst. exists O, s. split; [constructor|]. unfold loop_final. rewrite E, Ej.
+        repeat split. cbn. lia.
+  - inversion H; subst. exists O, s. split; [constructor|]. unfold loop_final. rewrite E. split; reflexivity.
+  - inversion H; subst. exists O, s. split; [constructor|]. unfold loop_final. rewrite E. split; reflexivity.
+Qed.
+
+(* ================================================================================== *)
+(* 6. C14 for offset commit and group offset fetch                                    *)
+(* ================================================================================== *)
+
+(* As for the lookup, the count of `EWrite _ (frame p)` also sees the re-offers after interrupted
+   writes.  The hypothesis gc_short says that the request is longer than the coordinator lookups
+   the loop may interleave (true of every commit / fetch request this client encodes, see
+   commit_req_gc_short / fetch_req_gc_short): otherwise a partially written lookup could offer
+   a buffer equal to `frame p` and be counted. *)
+Theorem C14_commit_bound_partial : forall fuel group p attempt s r s',
+  commit_loop fuel group (Ok p) attempt s = (r, s') ->
+  gc_short (frame p) (client_id (cfg (cl s))) group ->
+  attempts (frame p) s s' <= Z.max 1 (retry_max_attempts (cfg (cl s)) - attempt + 1) + interruptions s s'.
+Proof.
+  intros fuel group p attempt s r s' H Hs. rewrite commit_loop_eq in H.
+  exact (proj2 (proj1 (retry_loop_bound _ _ _ _ _ _ _ _ _ H Hs))).
+Qed.
+
+Theorem C14_commit_bound : forall fuel group p attempt s r s',
+  commit_loop fuel group (Ok p) attempt s = (r, s') -> 1 <= attempt ->
+  gc_short (frame p) (client_id (cfg (cl s))) group -> ~ In OWriteIntr (consumed s s') ->
+  attempts (frame p) s s' <= Z.max 1 (retry_max_attempts (cfg (cl s)) - attempt + 1).
+Proof.
+  intros fuel group p attempt s r s' H _ Hs Hn. pose proof (C14_commit_bound_partial _ _ _ _ _ _ _ H Hs) as B.
+  unfold interruptions in B. rewrite (count_intr_zero _ Hn) in B. lia.
+Qed.
+
+Theorem C14_group_fetch_bound_partial : forall fuel group p attempt s r s',
+  group_fetch_loop fuel group (Ok p) attempt s = (r, s') ->
+  gc_short (frame p) (client_id (cfg (cl s))) group ->
+  attempts (frame p) s s' <= Z.max 1 (retry_max_attempts (cfg (cl s)) - attempt + 1) + interruptions s s'.
+Proof.
+  intros fuel group p attempt s r s' H Hs. rewrite group_fetch_loop_eq in H.
+  exact (proj2 (proj1 (retry_loop_bound _ _ _ _ _ _ _ _ _ H Hs))).
+Qed.
+
+Theorem C14_group_fetch_bound : forall fuel group p attempt s r s',
+  group_fetch_loop fuel group (Ok p) attempt s = (r, s') -> 1 <= attempt ->
+  gc_short (frame p) (client_id (cfg (cl s))) group -> ~ In OWriteIntr (consumed s s') ->
+  attempts (frame p) s s' <= Z.max 1 (retry_max_attempts (cfg (cl s)) - attempt + 1).
+Proof.
+  intros fuel group p attempt s r s' H _ Hs Hn. pose proof (C14_group_fetch_bound_partial _ _ _ _ _ _ _ H Hs) as B.
+  unfold interruptions in B. rewrite (count_intr_zero _ Hn) in B. lia.
+Qed.
+
+(* the loops never touch the configuration (so the limit is the same at every iteration) *)
+Lemma retry_loop_cfg {A B} (d : dec A) (judge : A -> verdict B) group req : forall fuel attempt,
+  keeps (fun s s' => ext s s' /\ same_cfgc s s') (retry_loop d judge fuel group req attempt).
+Proof.
+  induction fuel as [|f IH]; intros attempt s r s' H.
+  - inversion H; subst. split; [apply ext_refl|reflexivity].
+  - cbn [retry_loop] in H. destruct (exchange_attempt d group req s) as [[a|e|w] s2] eqn:E;
+      destruct (exchange_attempt_cfg _ _ _ _ _ _ E) as [E1 C1]; unfold same_cfgc in *;
+      try (inversion H; subst; split; assumption).
+    assert (E2 : ext s2 (after_retry group true s2)) by apply with_cs_ext.
+    destruct (judge a) as [b|c|code reset]; try (inversion H; subst; split; assumption).
+    assert (E3 : ext s (after_retry group reset s2)).
+    { destruct reset; [eapply ext_trans; eassumption|exact E1]. }
+    pose proof (after_retry_cfg group reset s2) as C2.
+    destruct (attempt <? retry_max_attempts (cfg (cl s2))).
+    + destruct (IH _ _ _ _ H) as [E4 C4]. split; [eapply ext_trans; eassumption|congruence].
+    + inversion H; subst. split; [exact E3|congruence].
+Qed.
+
+Theorem C14_cfg_unchanged : forall fuel group req attempt s,
+  (forall r s', group_lookup_loop fuel group req attempt s = (r, s') -> cfg (cl s') = cfg (cl s)) /\
+  (forall r s', commit_loop fuel group req attempt s = (r, s') -> cfg (cl s') = cfg (cl s)) /\
+  (forall r s', group_fetch_loop fuel group req attempt s = (r, s') -> cfg (cl s') = cfg (cl s)).
+Proof.
+  intros fuel group req attempt s. split; [|split]; intros r s' H.
+  - exact (proj2 (lookup_loop_cfg _ _ _ _ _ _ _ H)).
+  - rewrite commit_loop_eq in H. exact (proj2 (retry_loop_cfg _ _ _ _ _ _ _ _ _ H)).
+  - rewrite group_fetch_loop_eq in H. exact (proj2 (retry_loop_cfg _ _ _ _ _ _ _ _ _ H)).
+Qed.
+
+(* ---- which answers are retried ------------------------------------------------------------------- *)
+Lemma commit_scan_parts_retry ps code reset : commit_scan_parts ps = ScanRetry code reset ->
+  (reset = false /\ code = KC_GroupLoadInProgress) \/ (reset = true /\ code = KC_NotCoordinatorForGroup).
+Proof.
+  induction ps as [|[p e] ps IH]; cbn [commit_scan_parts]; [discriminate|].
+  destruct (from_protocol e) as [c|]; [|exact IH].
+  destruct (c =? KC_GroupLoadInProgress) eqn:E1; [intros H; inversion H; subst; left; split; [reflexivity|lia]|].
+  destruct (c =? KC_NotCoordinatorForGroup) eqn:E2; [intros H; inversion H; subst; right; split; [reflexivity|lia]|].
+  discriminate.
+Qed.
+Lemma commit_scan_retry tps code reset : commit_scan tps = ScanRetry code reset ->
+  (reset = false /\ code = KC_GroupLoadInProgress) \/ (reset = true /\ code = KC_NotCoordinatorForGroup).
+Proof.
+  induction tps as [|[t ps] tps IH]; cbn [commit_scan]; [discriminate|].
+  destruct (commit_scan_parts ps) as [|c r|c] eqn:E; [exact IH| |discriminate].
+  intros H. inversion H; subst. exact (commit_scan_parts_retry _ _ _ E).
+Qed.
+Lemma group_scan_parts_retry ps : forall acc code reset, group_scan_parts ps acc = GRetry code reset ->
+  (reset = false /\ code = KC_GroupLoadInProgress) \/ (reset = true /\ code = KC_NotCoordinatorForGroup).
+Proof.
+  induction ps as [|p ps IH]; intros acc code reset; cbn [group_scan_parts]; [discriminate|].
+  destruct (get_offsets p) as [v|c]; [apply IH|].
+  destruct (c =? KC_GroupLoadInProgress) eqn:E1; [intros H; inversion H; subst; left; split; [reflexivity|lia]|].
+  destruct (c =? KC_NotCoordinatorForGroup) eqn:E2; [intros H; inversion H; subst; right; split; [reflexivity|lia]|].
+  discriminate.
+Qed.
+Lemma group_scan_retry tps : forall m code reset, group_scan tps m = inl (inr (code, reset)) ->
+  (reset = false /\ code = KC_GroupLoadInProgress) \/ (reset = true /\ code = KC_NotCoordinatorForGroup).
+Proof.
+  induction tps as [|[t ps] tps IH]; intros m code reset; cbn [group_scan]; [discriminate|].
+  destruct (group_scan_parts ps []) as [vs|c r|c] eqn:E; [apply IH| |discriminate].
+  intros H. inversion H; subst. exact (group_scan_parts_retry _ _ _ _ E).
+Qed.
+
+(* the first non-zero code of the response decides *)
+Lemma commit_scan_parts_first ps : forall pre p e post c,
+  ps = pre ++ (p, e) :: post -> (forall q, In q pre -> snd q = 0) -> from_protocol e = Some c ->
+  commit_scan_parts ps =
+    if c =? KC_GroupLoadInProgress then ScanRetry c false
+    else if c =? KC_NotCoordinatorForGroup then ScanRetry c true else ScanFatal c.
+Proof.
+  intros pre. revert ps. induction pre as [|[q0 e0] pre IH]; intros ps p e post c -> Hpre He.
+  - cbn [commit_scan_parts app]. rewrite He. reflexivity.
+  - cbn [commit_scan_parts app]. assert (e0 = 0) as -> by (apply (Hpre (q0, e0)); left; reflexivity).
+    rewrite from_protocol_zero. apply (IH _ p e post c eq_refl); [|exact He]. intros q Hq. apply Hpre. right. exact Hq.
+Qed.
+Lemma commit_scan_first tps : forall pre t ps post,
+  tps = pre ++ (t, ps) :: post -> (forall x, In x pre -> commit_scan_parts (snd x) = ScanOk) ->
+  commit_scan_parts ps <> ScanOk -> commit_scan tps = commit_scan_parts ps.
+Proof.
+  intros pre. revert tps. induction pre as [|[t0 ps0] pre IH]; intros tps t ps post -> Hpre Hne.
+  - cbn [commit_scan app]. destruct (commit_scan_parts ps); [contradiction|reflexivity|reflexivity].
+  - cbn [commit_scan app]. pose proof (Hpre (t0, ps0) (or_introl eq_refl)) as H0. cbn [snd] in H0. rewrite H0.
+    apply (IH _ t ps post eq_refl); [|exact Hne]. intros x Hx. apply Hpre. right. exact Hx.
+Qed.
+
+(* ---- results ---------------------------------------------------------------------------------------- *)
+Theorem C14_commit_result : forall fuel group req attempt s r s',
+  commit_loop fuel group req attempt s = (r, s') -> (length (script s) < fuel)%nat ->
+  exists n sk, loop_retried dec_offset_commit_resp commit_judge group req n attempt s sk /\
+               loop_final dec_offset_commit_resp commit_judge group req (attempt + Z.of_nat n) sk r s'.
+Proof. intros fuel group req attempt s r s' H Hl. rewrite commit_loop_eq in H. eapply retry_loop_result; eassumption. Qed.
+
+Theorem C14_group_fetch_result : forall fuel group req attempt s r s',
+  group_fetch_loop fuel group req attempt s = (r, s') -> (length (script s) < fuel)%nat ->
+  exists n sk, loop_retried dec_offset_fetch_resp fetch_judge group req n attempt s sk /\
+               loop_final dec_offset_fetch_resp fetch_judge group req (attempt + Z.of_nat n) sk r s'.
+Proof. intros fuel group req attempt s r s' H Hl. rewrite group_fetch_loop_eq in H. eapply retry_loop_result; eassumption. Qed.
+
+(* what the verdicts mean *)
+Lemma commit_judge_spec a :
+  match commit_judge a with
+  | VDone _ => commit_scan (snd a) = ScanOk
+  | VFatal c => commit_scan (snd a) = ScanFatal c
+  | VRetry code reset => commit_scan (snd a) = ScanRetry code reset /\
+      ((reset = false /\ code = KC_GroupLoadInProgress) \/ (reset = true /\ code = KC_NotCoordinatorForGroup))
+  end.
+Proof.
+  unfold commit_judge. destruct (commit_scan (snd a)) as [|c r|c] eqn:E; try reflexivity.
+  split; [reflexivity|]. exact (commit_scan_retry _ _ _ E).
+Qed.
+Lemma fetch_judge_spec a :
+  match fetch_judge a with
+  | VDone m => group_scan (snd a) [] = inl (inl m)
+  | VFatal c => group_scan (snd a) [] = inr c
+  | VRetry code reset => group_scan (snd a) [] = inl (inr (code, reset)) /\
+      ((reset = false /\ code = KC_GroupLoadInProgress) \/ (reset = true /\ code = KC_NotCoordinatorForGroup))
+  end.
+Proof.
+  unfold fetch_judge. destruct (group_scan (snd a) []) as [[m|[c r]]|c] eqn:E; try reflexivity.
+  split; [reflexivity|]. exact (group_scan_retry _ _ _ _ E).
+Qed.
+
+(* ---- termination ------------------------------------------------------------------------------------- *)
+Theorem C14_no_out_of_fuel : forall group req attempt s,
+  req <> Err EOutOfFuel ->
+  fst (with_fuel (fun f => group_lookup_loop f group req attempt) s) <> Err EOutOfFuel /\
+  fst (with_fuel (fun f => commit_loop f group req attempt) s) <> Err EOutOfFuel /\
+  fst (with_fuel (fun f => group_fetch_loop f group req attempt) s) <> Err EOutOfFuel.
+Proof.
+  intros group req attempt s Hq. unfold with_fuel. split; [|split].
+  - destruct (group_lookup_loop _ group req attempt s) as [r s'] eqn:E. cbn [fst].
+    eapply lookup_loop_nofuel; [exact Hq|exact E|lia].
+  - destruct (commit_loop _ group req attempt s) as [r s'] eqn:E. cbn [fst]. rewrite commit_loop_eq in E.
+    eapply retry_loop_nofuel; [apply dec_offset_commit_resp_nf|exact Hq|exact E|lia].
+  - destruct (group_fetch_loop _ group req attempt s) as [r s'] eqn:E. cbn [fst]. rewrite group_fetch_loop_eq in E.
+    eapply retry_loop_nofuel; [apply dec_offset_fetch_resp_nf|exact Hq|exact E|lia].
+Qed.
+
+(* ================================================================================== *)
+(* 7. re-lookup after "not coordinator for group"; code 15 on commit / fetch          *)
+(* ================================================================================== *)
+
+(* the coordinator cache has one entry per group: true of cstate_new and kept by every update *)
+Definition gc_wf (x : cstate) : Prop := NoDup (map fst (group_coordinators x)).
+
+Lemma assoc_bytes_notin {V} g (l : list (bytes * V)) : ~ In g (map fst l) -> assoc_bytes g l = None.
+Proof.
+  induction l as [|[k v] l IH]; intros Hn; [reflexivity|]. cbn [assoc_bytes].
+  destruct (bytes_eqb k g) eqn:E.
+  - exfalso. apply Hn. left. apply bytes_eqb_eq in E. exact E.
+  - apply IH. intros Hi. apply Hn. right. exact Hi.
+Qed.
+Lemma gc_remove_assoc l g : NoDup (map fst l) -> assoc_bytes g (gc_remove l g) = None.
+Proof.
+  induction l as [|[k v] l IH]; intros Hn; [reflexivity|]. cbn [map fst] in Hn. inversion Hn as [|x xs Hx Hxs]; subst.
+  cbn [gc_remove]. destruct (bytes_eqb k g) eqn:E.
+  - apply bytes_eqb_eq in E. subst k. apply assoc_bytes_notin. exact Hx.
+  - cbn [assoc_bytes]. rewrite E. apply IH. exact Hxs.
+Qed.
+Lemma group_coordinator_removed x g : gc_wf x -> group_coordinator (remove_group_coordinator x g) g = None.
+Proof. intros H. unfold group_coordinator, remove_group_coordinator. cbn [group_coordinators]. rewrite gc_remove_assoc by exact H. reflexivity. Qed.
+
+Lemma gc_set_keys l g i x : In x (map fst (gc_set l g i)) -> In x (map fst l) \/ x = g.
+Proof.
+  induction l as [|[k v] l IH]; cbn [gc_set map fst In].
+  - intros [H|[]]. right. symmetry. exact H.
+  - destruct (bytes_eqb k g); cbn [map fst In]; [intros H; left; exact H|].
+    intros [H|H]; [left; left; exact H|]. destruct (IH H) as [H'|H']; [left; right; exact H'|right; exact H'].
+Qed.
+Lemma gc_set_wf l g i : NoDup (map fst l) -> NoDup (map fst (gc_set l g i)).
+Proof.
+  induction l as [|[k v] l IH]; intros Hn; cbn [gc_set].
+  - cbn. constructor; [intros []|constructor].
+  - cbn [map fst] in Hn. inversion Hn as [|x xs Hx Hxs]; subst. destruct (bytes_eqb k g) eqn:E.
+    + cbn [map fst]. constructor; assumption.
+    + cbn [map fst]. constructor; [|apply IH; exact Hxs]. intros Hi.
+      destruct (gc_set_keys _ _ _ _ Hi) as [H|H]; [contradiction|]. subst k. rewrite bytes_eqb_refl in E. discriminate.
+Qed.
+Lemma gc_remove_keys l g x : In x (map fst (gc_remove l g)) -> In x (map fst l).
+Proof.
+  induction l as [|[k v] l IH]; cbn [gc_remove map fst In]; [intros []|].
+  destruct (bytes_eqb k g); cbn [map fst In]; [intros H; right; exact H|].
+  intros [H|H]; [left; exact H|right; apply IH; exact H].
+Qed.
+Lemma gc_remove_wf l g : NoDup (map fst l) -> NoDup (map fst (gc_remove l g)).
+Proof.
+  induction l as [|[k v] l IH]; intros Hn; cbn [gc_remove]; [constructor|].
+  cbn [map fst] in Hn. inversion Hn as [|x xs Hx Hxs]; subst. destruct (bytes_eqb k g); [exact Hxs|].
+  cbn [map fst]. constructor; [|apply IH; exact Hxs]. intros Hi. apply Hx. eapply gc_remove_keys; exact Hi.
+Qed.
+Lemma gc_wf_new : gc_wf cstate_new.
+Proof. constructor. Qed.
+Lemma gc_wf_set x g r : gc_wf x -> gc_wf (snd (set_group_coordinator x g r)).
+Proof.
+  intros H. unfold set_group_coordinator. destruct (find_node (brokers x) (gc_broker r) 0); cbn [snd];
+    unfold gc_wf; cbn [group_coordinators]; apply gc_set_wf; exact H.
+Qed.
+Lemma gc_wf_remove x g : gc_wf x -> gc_wf (remove_group_coordinator x g).
+Proof. intros H. unfold gc_wf, remove_group_coordinator. cbn [group_coordinators]. apply gc_remove_wf. exact H. Qed.
+Lemma gc_wf_next_corr x : gc_wf x -> gc_wf (snd (next_correlation_id x)).
+Proof. intros H. exact H. Qed.
+
+Lemma retry_loop_relookup {A B} (d : dec A) (judge : A -> verdict B) group req f attempt s a s2 code :
+  exchange_attempt d group req s = (Ok a, s2) -> judge a = VRetry code true ->
+  attempt < retry_max_attempts (cfg (cl s2)) -> gc_wf (cs (cl s2)) ->
+  let s3 := after_retry group true s2 in
+  (* the next iteration starts from s3, in which the group has no cached coordinator ... *)
+  retry_loop d judge (S f) group req attempt s = retry_loop d judge f group req (attempt + 1) s3 /\
+  group_coordinator (cs (cl s3)) group = None /\
+  (* ... so get_group_coordinator performs a lookup (a fresh correlation id, attempts from 1) ... *)
+  get_group_coordinator group s3 =
+    group_lookup_loop (S (length (script s3))) group
+      (enc_group_coordinator_req (fst (next_correlation_id (cs (cl s3)))) (client_id (cfg (cl s3))) group) 1
+      (with_cs s3 (snd (next_correlation_id (cs (cl s3))))) /\
+  (* ... and the next request is exchanged with the host that lookup returned, and only with it *)
+  forall h' s4, get_group_coordinator group s3 = (Ok h', s4) ->
+    exchange_attempt d group req s3 = send_receive d h' req s4 /\
+    forall r5 s5, send_receive d h' req s4 = (r5, s5) -> Forall (on_host h') (performed s4 s5).
+Proof.
+  intros E Ej Ea Hwf s3.
+  assert (Hnone : group_coordinator (cs (cl s3)) group = None).
+  { unfold s3, after_retry. rewrite with_cs_cs. apply group_coordinator_removed. exact Hwf. }
+  split; [|split; [exact Hnone|split]].
+  - cbn [retry_loop]. rewrite E, Ej. destruct (attempt <? retry_max_attempts (cfg (cl s2))) eqn:Eb; [reflexivity|lia].
+  - rewrite ggc_unfold, Hnone. reflexivity.
+  - intros h' s4 Hg. split.
+    + unfold exchange_attempt. exact (mbind_ok _ (fun h => send_receive d h req) _ _ _ Hg).
+    + intros r5 s5 H5. apply (ops_send_receive _ _ _ _ _ _ _ H5).
+Qed.
+
+Theorem C14_relookup : forall f group req attempt s c tps s2 code,
+  exchange_attempt dec_offset_commit_resp group req s = (Ok (c, tps), s2) ->
+  commit_scan tps = ScanRetry code true ->              (* the first non-zero code of the answer is 16 *)
+  attempt < retry_max_attempts (cfg (cl s2)) -> gc_wf (cs (cl s2)) ->
+  let s3 := after_retry group true s2 in
+  code = KC_NotCoordinatorForGroup /\
+  commit_loop (S f) group req attempt s = commit_loop f group req (attempt + 1) s3 /\
+  group_coordinator (cs (cl s3)) group = None /\
+  get_group_coordinator group s3 =
+    group_lookup_loop (S (length (script s3))) group
+      (enc_group_coordinator_req (fst (next_correlation_id (cs (cl s3)))) (client_id (cfg (cl s3))) group) 1
+      (with_cs s3 (snd (next_correlation_id (cs (cl s3))))) /\
+  forall h' s4, get_group_coordinator group s3 = (Ok h', s4) ->
+    exchange_attempt dec_offset_commit_resp group req s3 = send_receive dec_offset_commit_resp h' req s4 /\
+    forall r5 s5, send_receive dec_offset_commit_resp h' req s4 = (r5, s5) -> Forall (on_host h') (performed s4 s5).
+Proof.
+  intros f group req attempt s c tps s2 code E Es Ea Hwf s3.
+  assert (Ej : commit_judge (c, tps) = VRetry code true) by (unfold commit_judge; cbn [snd]; rewrite Es; reflexivity).
+  split.
+  - destruct (commit_scan_retry _ _ _ Es) as [[Hx _]|[_ Hx]]; [discriminate|exact Hx].
+  - rewrite !commit_loop_eq. exact (retry_loop_relookup _ _ _ _ f _ _ _ _ _ E Ej Ea Hwf).
+Qed.
+
+Theorem C14_relookup_group_fetch : forall f group req attempt s c tps s2 code,
+  exchange_attempt dec_offset_fetch_resp group req s = (Ok (c, tps), s2) ->
+  group_scan tps [] = inl (inr (code, true)) ->
+  attempt < retry_max_attempts (cfg (cl s2)) -> gc_wf (cs (cl s2)) ->
+  let s3 := after_retry group true s2 in
+  code = KC_NotCoordinatorForGroup /\
+  group_fetch_loop (S f) group req attempt s = group_fetch_loop f group req (attempt + 1) s3 /\
+  group_coordinator (cs (cl s3)) group = None /\
+  get_group_coordinator group s3 =
+    group_lookup_loop (S (length (script s3))) group
+      (enc_group_coordinator_req (fst (next_correlation_id (cs (cl s3)))) (client_id (cfg (cl s3))) group) 1
+      (with_cs s3 (snd (next_correlation_id (cs (cl s3))))) /\
+  forall h' s4, get_group_coordinator group s3 = (Ok h', s4) ->
+    exchange_attempt dec_offset_fetch_resp group req s3 = send_receive dec_offset_fetch_resp h' req s4 /\
+    forall r5 s5, send_receive dec_offset_fetch_resp h' req s4 = (r5, s5) -> Forall (on_host h') (performed s4 s5).
+Proof.
+  intros f group req attempt s c tps s2 code E Es Ea Hwf s3.
+  assert (Ej : fetch_judge (c, tps) = VRetry code true) by (unfold fetch_judge; cbn [snd]; rewrite Es; reflexivity).
+  split.
+  - destruct (group_scan_retry _ _ _ _ Es) as [[Hx _]|[_ Hx]]; [discriminate|exact Hx].
+  - rewrite !group_fetch_loop_eq. exact (retry_loop_relookup _ _ _ _ f _ _ _ _ _ E Ej Ea Hwf).
+Qed.
+
+(* ---- finding F21: code 15 ends a commit / group offset fetch at once ---------------------------------- *)
+Lemma from_protocol_15 : from_protocol 15 = Some KC_GroupCoordinatorNotAvailable.
+Proof. reflexivity. Qed.
+
+Lemma commit_scan_code15 tps pre t ps post pre' p post' :
+  tps = pre ++ (t, ps) :: post -> (forall x, In x pre -> commit_scan_parts (snd x) = ScanOk) ->
+  ps = pre' ++ (p, 15) :: post' -> (forall q, In q pre' -> snd q = 0) ->
+  commit_scan tps = ScanFatal KC_GroupCoordinatorNotAvailable.
+Proof.
+  intros Ht Hpre Hps Hpre'.
+  pose proof (commit_scan_parts_first ps pre' p 15 post' _ Hps Hpre' from_protocol_15) as Hp.
+  change (KC_GroupCoordinatorNotAvailable =? KC_GroupLoadInProgress) with false in Hp.
+  change (KC_GroupCoordinatorNotAvailable =? KC_NotCoordinatorForGroup) with false in Hp. cbv iota in Hp.
+  rewrite (commit_scan_first tps pre t ps post Ht Hpre); [exact Hp|]. rewrite Hp. discriminate.
+Qed.
+
+(* Whatever the attempt number and the limit: an answer whose deciding code is 15
+   (GroupCoordinatorNotAvailable) ends the call with that error after this single attempt,
+   although the informal property lists 15 among the retryable answers. *)
+Theorem C14_code15_not_retried_on_commit : forall f group req attempt s c tps s2,
+  exchange_attempt dec_offset_commit_resp group req s = (Ok (c, tps), s2) ->
+  commit_scan tps = ScanFatal KC_GroupCoordinatorNotAvailable ->
+  commit_loop (S f) group req attempt s = (Err (EKafka KC_GroupCoordinatorNotAvailable), s2).
+Proof.
+  intros f group req attempt s c tps s2 E Es. rewrite commit_loop_eq. cbn [retry_loop]. rewrite E.
+  unfold commit_judge. cbn [snd]. rewrite Es. reflexivity.
+Qed.
+
+Lemma group_scan_parts_code15 p r acc : ofp_error p = 15 ->
+  group_scan_parts (p :: r) acc = GFatal KC_GroupCoordinatorNotAvailable.
+Proof. intros H. cbn [group_scan_parts]. unfold get_offsets. rewrite H, from_protocol_15. reflexivity. Qed.
+
+Theorem C14_code15_not_retried_on_group_fetch : forall f group req attempt s c tps s2,
+  exchange_attempt dec_offset_fetch_resp group req s = (Ok (c, tps), s2) ->
+  group_scan tps [] = inr KC_GroupCoordinatorNotAvailable ->
+  group_fetch_loop (S f) group req attempt s = (Err (EKafka KC_GroupCoordinatorNotAvailable), s2).
+Proof.
+  intros f group req attempt s c tps s2 E Es. rewrite group_fetch_loop_eq. cbn [retry_loop]. rewrite E.
+  unfold fetch_judge. cbn [snd]. rewrite Es. reflexivity.
+Qed.
+
+(* ================================================================================== *)
+(* 8. concrete runs                                                                   *)
+(* ================================================================================== *)
+
+Definition h1 : bytes := tag "b1:9092".
+Definition h2 : bytes := tag "b2:9092".
+Definition env0 : codecs :=
+  {| gz_compress := fun b => b; sn_compress := fun b => b; gz_decompress := fun _ => None; debug_build := false |}.
+Definition cfg_n (n : Z) : config :=
+  {| client_id := tag "cid"; hosts := [h1]; compression := 0; fetch_max_wait_time := 100;
+     fetch_min_bytes := 4096; fetch_max_bytes_per_partition := 32768; fetch_crc_validation := true;
+     offset_storage := 1; retry_backoff_time := (0, 100000000); retry_max_attempts := n;
+     idle_timeout := (540, 0) |}.
+(* broker 1 = b1:9092 is known, leads t/0 and is the cached coordinator of group "g" *)
+Definition csg (cached : bool) : cstate :=
+  {| correlation := 0; brokers := [{| b_node := 1; b_host := h1 |}];
+     topic_partitions := [(tag "t", [0])];
+     group_coordinators := if cached then [(tag "g", 0)] else [] |}.
+Definition mkst (n : Z) (cached : bool) (sc : list ev_out) : st :=
+  {| script := sc; trace := []; anyq := []; hostq := []; fetchq := []; entryq := [];
+     cl := {| cfg := cfg_n n; cs := csg cached; conns := [h1] |}; env := env0 |}.
+
+(* one request accepted at once and its reply delivered as a 4-byte header and a body *)
+Definition answer (b : bytes) : list ev_out := [OWrote 1000; OData (enc_i32 (ulen b)); OData b].
+Definition commit_resp (corr code : Z) : bytes :=
+  enc_i32 corr ++ enc_i32 1 ++ enc_i16 1 ++ tag "t" ++ enc_i32 1 ++ enc_i32 0 ++ enc_i16 code.
+Definition coord_resp (corr code broker : Z) (host : bytes) (port : Z) : bytes :=
+  enc_i32 corr ++ enc_i16 code ++ enc_i32 broker ++ enc_i16 (ulen host) ++ host ++ enc_i32 port.
+Definition the_commit : list commit_offset := [{| co_topic := tag "t"; co_partition := 0; co_offset := 5 |}].
+Definition unres (r : res bytes) : bytes := match r with Ok p => p | _ => [] end.
+Definition commit_p : bytes := unres (enc_offset_commit_req 1 (tag "cid") (tag "g") 1 [(tag "t", [(0, 5)])]).
+Definition lookup_p (corr : Z) : bytes := unres (enc_group_coordinator_req corr (tag "cid") (tag "g")).
+
+(* commit: three answers "offsets loading" (14) with a limit of 3: exactly three attempts, then the
+   last retryable error; the fourth answer in the script is never asked for *)
+Example C14_commit_exhausted_ex :
+  let s := mkst 3 true (answer (commit_resp 1 14) ++ answer (commit_resp 1 14) ++ answer (commit_resp 1 14)
+                        ++ answer (commit_resp 1 0)) in
+  let '(r, s') := commit_offsets (tag "g") the_commit s in
+  r = Err (EKafka KC_GroupLoadInProgress) /\ attempts (frame commit_p) s s' = 3 /\
+  interruptions s s' = 0 /\ script s' = answer (commit_resp 1 0) /\
+  gc_short (frame commit_p) (client_id (cfg (cl s))) (tag "g").
+Proof. vm_compute. repeat split. Qed.
+
+(* a limit of 0 still gives one attempt; success within the limit is success *)
+Example C14_commit_zero_limit_ex :
+  let s := mkst 0 true (answer (commit_resp 1 14) ++ answer (commit_resp 1 0)) in
+  let '(r, s') := commit_offsets (tag "g") the_commit s in
+  r = Err (EKafka KC_GroupLoadInProgress) /\ attempts (frame commit_p) s s' = 1.
+Proof. vm_compute. repeat split. Qed.
+Example C14_commit_success_ex :
+  let s := mkst 3 true (answer (commit_resp 1 14) ++ answer (commit_resp 1 14) ++ answer (commit_resp 1 0)) in
+  let '(r, s') := commit_offsets (tag "g") the_commit s in
+  r = Ok tt /\ attempts (frame commit_p) s s' = 3 /\ script s' = [].
+Proof. vm_compute. repeat split. Qed.
+
+(* re-lookup: the commit is answered 16 by b1; the coordinator is looked up again (asking b1, the
+   pooled connection), the answer names broker 2 = b2:9092; a connection to b2 is opened and the
+   second commit request goes there *)
+Example C14_relookup_ex :
+  let s := mkst 3 true (answer (commit_resp 1 16) ++ answer (coord_resp 2 0 2 (tag "b2") 9092)
+                        ++ [OConn true] ++ answer (commit_resp 1 0)) in
+  let '(r, s') := commit_offsets (tag "g") the_commit s in
+  r = Ok tt /\
+  filter (fun e => match e with ERead _ _ => false | _ => true end) (performed s s')
+    = [EWrite h1 (frame commit_p); EWrite h1 (frame (lookup_p 2)); EConnect h2; EWrite h2 (frame commit_p)] /\
+  group_coordinator (cs (cl s')) (tag "g") = Some h2 /\ attempts (frame commit_p) s s' = 2.
+Proof. vm_compute. repeat split. Qed.
+
+(* F21: code 15 on a commit is final although the limit is 3 and this is the first attempt *)
+Example C14_code15_commit_ex :
+  let s := mkst 3 true (answer (commit_resp 1 15) ++ answer (commit_resp 1 0)) in
+  let '(r, s') := commit_offsets (tag "g") the_commit s in
+  r = Err (EKafka KC_GroupCoordinatorNotAvailable) /\ attempts (frame commit_p) s s' = 1 /\
+  script s' = answer (commit_resp 1 0).
+Proof. vm_compute. repeat split. Qed.
+
+(* lookup: 15 is retried up to the limit *)
+Example C14_lookup_exhausted_ex :
+  let s := mkst 3 false (answer (coord_resp 1 15 0 [] 0) ++ answer (coord_resp 1 15 0 [] 0)
+                         ++ answer (coord_resp 1 15 0 [] 0) ++ answer (coord_resp 1 0 1 (tag "b1") 9092)) in
+  let '(r, s') := get_group_coordinator (tag "g") s in
+  r = Err (EKafka KC_GroupCoordinatorNotAvailable) /\ attempts (frame (lookup_p 1)) s s' = 3 /\
+  script s' = answer (coord_resp 1 0 1 (tag "b1") 9092).
+Proof. vm_compute. repeat split. Qed.
+Example C14_lookup_success_ex :
+  let s := mkst 3 false (answer (coord_resp 1 15 0 [] 0) ++ answer (coord_resp 1 0 1 (tag "b1") 9092)) in
+  let '(r, s') := get_group_coordinator (tag "g") s in
+  r = Ok h1 /\ attempts (frame (lookup_p 1)) s s' = 2 /\ group_coordinator (cs (cl s')) (tag "g") = Some h1.
+Proof. vm_compute. repeat split. Qed.
+(* any other code ends the lookup at once *)
+Example C14_lookup_fatal_ex :
+  let s := mkst 3 false (answer (coord_resp 1 16 0 [] 0) ++ answer (coord_resp 1 0 1 (tag "b1") 9092)) in
+  let '(r, s') := get_group_coordinator (tag "g") s in
+  r = Err (EKafka KC_NotCoordinatorForGroup) /\ attempts (frame (lookup_p 1)) s s' = 1.
+Proof. vm_compute. repeat split. Qed.
+
+(* group offset fetch *)
+Definition fetch_p : bytes := unres (enc_offset_fetch_req 1 (tag "cid") (tag "g") 1 [(tag "t", [0])]).
+Definition ofetch_resp (corr offset code : Z) : bytes :=
+  enc_i32 corr ++ enc_i32 1 ++ enc_i16 1 ++ tag "t" ++ enc_i32 1 ++ enc_i32 0 ++ enc_i64 offset ++ enc_i16 0 ++ enc_i16 code.
+Example C14_group_fetch_ex :
+  let s := mkst 2 true (answer (ofetch_resp 1 0 14) ++ answer (ofetch_resp 1 77 0)) in
+  let '(r, s') := fetch_group_offsets (tag "g") [(tag "t", 0)] s in
+  r = Ok [(tag "t", [(0, 77)])] /\ attempts (frame fetch_p) s s' = 2.
+Proof. vm_compute. repeat split. Qed.
+Example C14_group_fetch_exhausted_ex :
+  let s := mkst 2 true (answer (ofetch_resp 1 0 14) ++ answer (ofetch_resp 1 0 14) ++ answer (ofetch_resp 1 77 0)) in
+  let '(r, s') := fetch_group_offsets (tag "g") [(tag "t", 0)] s in
+  r = Err (EKafka KC_GroupLoadInProgress) /\ attempts (frame fetch_p) s s' = 2 /\
+  script s' = answer (ofetch_resp 1 77 0).
+Proof. vm_compute. repeat split. Qed.
+Example C14_code15_group_fetch_ex :
+  let s := mkst 2 true (answer (ofetch_resp 1 0 15) ++ answer (ofetch_resp 1 77 0)) in
+  let '(r, s') := fetch_group_offsets (tag "g") [(tag "t", 0)] s in
+  r = Err (EKafka KC_GroupCoordinatorNotAvailable) /\ attempts (frame fetch_p) s s' = 1.
+Proof. vm_compute. repeat split. Qed.
+
+(* The bound as literally requested (no allowance for interrupted writes) is false: with the
+   limit reached (attempt = limit = 3) a single attempt whose first write is interrupted offers
+   the whole frame twice. *)
+Theorem C14_lookup_bound_refuted :
+  exists fuel group p attempt s,
+    let '(r, s') := group_lookup_loop fuel group (Ok p) attempt s in
+    1 <= attempt /\ r = Ok h1 /\
+    ~ (attempts (frame p) s s' <= Z.max 1 (retry_max_attempts (cfg (cl s)) - attempt + 1)).
+Proof.
+  exists 10%nat, (tag "g"), (lookup_p 1), 3,
+         (mkst 3 false ([OWriteIntr] ++ answer (coord_resp 1 0 1 (tag "b1") 9092))).
+  vm_compute. split; [discriminate|]. split; [reflexivity|]. intros H. apply H. reflexivity.
+Qed.
+Theorem C14_commit_bound_refuted :
+  exists fuel group p attempt s,
+    let '(r, s') := commit_loop fuel group (Ok p) attempt s in
+    1 <= attempt /\ r = Ok tt /\ gc_short (frame p) (client_id (cfg (cl s))) group /\
+    ~ (attempts (frame p) s s' <= Z.max 1 (retry_max_attempts (cfg (cl s)) - attempt + 1)).
+Proof.
+  exists 10%nat, (tag "g"), commit_p, 3, (mkst 3 true ([OWriteIntr] ++ answer (commit_resp 1 0))).
+  vm_compute. split; [discriminate|]. split; [reflexivity|]. split; [reflexivity|]. intros H. apply H. reflexivity.
+Qed.
+
+(* ================================================================================== *)
+(* 9. the public calls                                                                *)
+(* ================================================================================== *)
+
+(* ---- the requests this client encodes are longer than its coordinator lookups ---------------- *)
+Lemma enc_str_len x g : enc_str x = Ok g -> ulen g = 2 + ulen x.
+Proof.
+  unfold enc_str. destruct (ulen x <=? i16_max); [|discriminate]. intros H. inversion H; subst.
+  unfold ulen. rewrite app_length. unfold enc_i16. rewrite be_enc_length. lia.
+Qed.
+Lemma enc_header_len k v corr cid hd : enc_header k v corr cid = Ok hd -> ulen hd = 10 + ulen cid.
+Proof.
+  unfold enc_header. destruct (enc_str cid) as [c| |] eqn:E; cbn [bind]; try discriminate.
+  intros H. inversion H; subst. apply enc_str_len in E. unfold ulen in *. rewrite !app_length.
+  unfold enc_i16, enc_i32. rewrite !be_enc_length. lia.
+Qed.
+Lemma enc_array_len {A} (f : A -> res bytes) xs b : enc_array f xs = Ok b -> 4 <= ulen b.
+Proof.
+  unfold enc_array. destruct (ulen xs <=? i32_max); [|discriminate].
+  destruct (enc_all f xs) as [body| |]; cbn [bind]; try discriminate. intros H. inversion H; subst.
+  unfold ulen. rewrite app_length. unfold enc_i32. rewrite be_enc_length. lia.
+Qed.
+
+Lemma commit_req_gc_short corr cid group version tps p :
+  enc_offset_commit_req corr cid group version tps = Ok p -> gc_short (frame p) cid group.
+Proof.
+  unfold enc_offset_commit_req. destruct (negb _); [discriminate|].
+  destruct (enc_header _ _ _ _) as [hd| |] eqn:Eh; cbn [bind]; try discriminate.
+  destruct (enc_str group) as [g| |] eqn:Eg; cbn [bind]; try discriminate.
+  destruct (enc_str []) as [empty| |] eqn:Ee; cbn [bind]; try discriminate. cbv zeta.
+  destruct (enc_tps _ tps) as [b| |] eqn:Eb; cbn [bind]; try discriminate.
+  intros H. inversion H; subst. apply enc_header_len in Eh. apply enc_str_len in Eg. apply enc_array_len in Eb.
+  unfold gc_short. rewrite frame_ulen. unfold ulen in *. rewrite !app_length. lia.
+Qed.
+Lemma fetch_req_gc_short corr cid group version tps p :
+  enc_offset_fetch_req corr cid group version tps = Ok p -> gc_short (frame p) cid group.
+Proof.
+  unfold enc_offset_fetch_req.
+  destruct (enc_header _ _ _ _) as [hd| |] eqn:Eh; cbn [bind]; try discriminate.
+  destruct (enc_str group) as [g| |] eqn:Eg; cbn [bind]; try discriminate.
+  destruct (enc_tps _ tps) as [b| |] eqn:Eb; cbn [bind]; try discriminate.
+  intros H. inversion H; subst. apply enc_header_len in Eh. apply enc_str_len in Eg. apply enc_array_len in Eb.
+  unfold gc_short. rewrite frame_ulen. unfold ulen in *. rewrite !app_length. lia.
+Qed.
+
+(* ---- the encoders never produce the model's out-of-fuel error -------------------------------------- *)
+Lemma enc_str_nofuel x : enc_str x <> Err EOutOfFuel.
+Proof. unfold enc_str. destruct (_ <=? _); discriminate. Qed.
+Lemma enc_header_nofuel k v corr cid : enc_header k v corr cid <> Err EOutOfFuel.
+Proof.
+  unfold enc_header. pose proof (enc_str_nofuel cid). destruct (enc_str cid); cbn [bind]; try discriminate; assumption.
+Qed.
+Lemma enc_all_nofuel {A} (f : A -> res bytes) xs : (forall x, f x <> Err EOutOfFuel) -> enc_all f xs <> Err EOutOfFuel.
+Proof.
+  intros Hf. induction xs as [|x xs IH]; cbn [enc_all]; [discriminate|].
+  pose proof (Hf x). destruct (f x); cbn [bind]; try discriminate; [|assumption].
+  destruct (enc_all f xs); cbn [bind]; try discriminate; assumption.
+Qed.
+Lemma enc_array_nofuel {A} (f : A -> res bytes) xs : (forall x, f x <> Err EOutOfFuel) -> enc_array f xs <> Err EOutOfFuel.
+Proof.
+  intros Hf. unfold enc_array. destruct (_ <=? _); [|discriminate].
+  pose proof (enc_all_nofuel f xs Hf). destruct (enc_all f xs); cbn [bind]; try discriminate; assumption.
+Qed.
+Lemma enc_tps_nofuel {P} (encp : P -> res bytes) tps : (forall x, encp x <> Err EOutOfFuel) -> enc_tps encp tps <> Err EOutOfFuel.
+Proof.
+  intros Hf. unfold enc_tps. apply enc_array_nofuel. intros [t ps].
+  pose proof (enc_str_nofuel t). destruct (enc_str t); cbn [bind]; try discriminate; [|assumption].
+  pose proof (enc_array_nofuel encp ps Hf). destruct (enc_array encp ps); cbn [bind]; try discriminate; assumption.
+Qed.
+Lemma enc_offset_commit_req_nofuel corr cid group version tps :
+  enc_offset_commit_req corr cid group version tps <> Err EOutOfFuel.
+Proof.
+  unfold enc_offset_commit_req. destruct (negb _); [discriminate|].
+  pose proof (enc_header_nofuel API_KEY_OFFSET_COMMIT version corr cid).
+  destruct (enc_header _ _ _ _); cbn [bind]; try discriminate; [|assumption].
+  pose proof (enc_str_nofuel group). destruct (enc_str group); cbn [bind]; try discriminate; [|assumption].
+  pose proof (enc_str_nofuel []). destruct (enc_str []); cbn [bind]; try discriminate; [|assumption]. cbv zeta.
+  match goal with |- bind (enc_tps ?f tps) _ <> _ =>
+    assert (Hb : enc_tps f tps <> Err EOutOfFuel) by (apply enc_tps_nofuel; intros [x y]; discriminate);
+    destruct (enc_tps f tps); cbn [bind]; try discriminate; assumption end.
+Qed.
+Lemma enc_offset_fetch_req_nofuel corr cid group version tps :
+  enc_offset_fetch_req corr cid group version tps <> Err EOutOfFuel.
+Proof.
+  unfold enc_offset_fetch_req.
+  pose proof (enc_header_nofuel API_KEY_OFFSET_FETCH version corr cid).
+  destruct (enc_header _ _ _ _); cbn [bind]; try discriminate; [|assumption].
+  pose proof (enc_str_nofuel group). destruct (enc_str group); cbn [bind]; try discriminate; [|assumption].
+  match goal with |- bind (enc_tps ?f tps) _ <> _ =>
+    assert (Hb : enc_tps f tps <> Err EOutOfFuel) by (apply enc_tps_nofuel; intros x; discriminate);
+    destruct (enc_tps f tps); cbn [bind]; try discriminate; assumption end.
+Qed.
+
+(* ---- the calls, unfolded ------------------------------------------------------------------------------ *)
+Definition after_corr (s : st) : st := with_cs s (snd (next_correlation_id (cs (cl s)))).
+Definition commit_req (group : bytes) (s : st) (tps : list (bytes * list (Z * Z))) : res bytes :=
+  enc_offset_commit_req (fst (next_correlation_id (cs (cl s)))) (client_id (cfg (cl s))) group
+                        (commit_version (offset_storage (cfg (cl s)))) tps.
+Definition fetch_req (group : bytes) (s : st) (tps : list (bytes * list Z)) : res bytes :=
+  enc_offset_fetch_req (fst (next_correlation_id (cs (cl s)))) (client_id (cfg (cl s))) group
+                       (fetch_version (offset_storage (cfg (cl s)))) tps.
+
+Lemma commit_offsets_unfold group os s :
+  commit_offsets group os s =
+  if offset_storage (cfg (cl s)) <? 0 then (Err EUnsetOffsetStorage, s)
+  else match commit_tps (cs (cl s)) os [] with
+       | None => (Err (EKafka KC_UnknownTopicOrPartition), after_corr s)
+       | Some [] => (Ok tt, after_corr s)
+       | Some (x :: xs) =>
+           commit_loop (S (length (script s))) group (commit_req group s (x :: xs)) 1 (after_corr s)
+       end.
+Proof.
+  unfold commit_offsets. unfold mbind at 1. unfold get_client at 1.
+  destruct (offset_storage (cfg (cl s)) <? 0); [reflexivity|].
+  destruct (commit_tps (cs (cl s)) os []) as [[|x xs]|]; reflexivity.
+Qed.
+Lemma fetch_group_offsets_unfold group ps s :
+  fetch_group_offsets group ps s =
+  if offset_storage (cfg (cl s)) <? 0 then (Err EUnsetOffsetStorage, s)
+  else match group_fetch_tps (cs (cl s)) ps [] with
+       | None => (Err (EKafka KC_UnknownTopicOrPartition), after_corr s)
+       | Some tps => group_fetch_loop (S (length (script s))) group (fetch_req group s tps) 1 (after_corr s)
+       end.
+Proof.
+  unfold fetch_group_offsets. unfold mbind at 1. unfold get_client at 1.
+  destruct (offset_storage (cfg (cl s)) <? 0); [reflexivity|].
+  destruct (group_fetch_tps (cs (cl s)) ps []); reflexivity.
+Qed.
+
+(* every call terminates with a proper result, for every answer stream and every limit *)
+Theorem C14_calls_no_out_of_fuel : forall group s,
+  fst (get_group_coordinator group s) <> Err EOutOfFuel /\
+  (forall os, fst (commit_offsets group os s) <> Err EOutOfFuel) /\
+  (forall ps, fst (fetch_group_offsets group ps s) <> Err EOutOfFuel).
+Proof.
+  intros group s. split; [|split].
+  - destruct (get_group_coordinator group s) as [r s'] eqn:E. cbn [fst]. exact (ggc_nofuel _ _ _ _ E).
+  - intros os. rewrite commit_offsets_unfold. destruct (_ <? 0); [cbn; discriminate|].
+    destruct (commit_tps (cs (cl s)) os []) as [[|x xs]|]; try (cbn; discriminate).
+    destruct (commit_loop _ _ _ _ _) as [r s'] eqn:E. cbn [fst]. rewrite commit_loop_eq in E.
+    eapply retry_loop_nofuel; [apply dec_offset_commit_resp_nf|apply enc_offset_commit_req_nofuel|exact E|].
+    cbn. lia.
+  - intros ps. rewrite fetch_group_offsets_unfold. destruct (_ <? 0); [cbn; discriminate|].
+    destruct (group_fetch_tps (cs (cl s)) ps []) as [tps|]; try (cbn; discriminate).
+    destruct (group_fetch_loop _ _ _ _ _) as [r s'] eqn:E. cbn [fst]. rewrite group_fetch_loop_eq in E.
+    eapply retry_loop_nofuel; [apply dec_offset_fetch_resp_nf|apply enc_offset_fetch_req_nofuel|exact E|].
+    cbn. lia.
+Qed.
+
+Lemma after_corr_quiet fr s : quiet fr s (after_corr s).
+Proof. apply with_cs_quiet. Qed.
+
+(* the bounds for the calls: at most max 1 limit requests, no side condition left *)
+Theorem C14_commit_offsets_bound : forall group os s r s' tps p,
+  commit_offsets group os s = (r, s') ->
+  commit_tps (cs (cl s)) os [] = Some tps -> commit_req group s tps = Ok p ->
+  attempts (frame p) s s' <= Z.max 1 (retry_max_attempts (cfg (cl s))) + interruptions s s'.
+Proof.
+  intros group os s r s' tps p H Ht Hp. rewrite commit_offsets_unfold, Ht in H.
+  assert (Hq : forall s1, quiet (frame p) s s1 ->
+                 attempts (frame p) s s1 <= Z.max 1 (retry_max_attempts (cfg (cl s))) + interruptions s s1).
+  { intros s1 [_ Hle]. lia. }
+  destruct (_ <? 0); [inversion H; subst; apply Hq, preorder_quiet|].
+  destruct tps as [|x xs]; [inversion H; subst; apply Hq, after_corr_quiet|].
+  rewrite Hp, commit_loop_eq in H.
+  assert (Hs : gc_short (frame p) (client_id (cfg (cl (after_corr s)))) group).
+  { unfold commit_req in Hp. apply commit_req_gc_short in Hp. exact Hp. }
+  destruct (retry_loop_bound _ _ _ _ _ _ _ _ _ H Hs) as [B _].
+  pose proof (att_le_trans _ _ _ _ _ _ (after_corr_quiet (frame p) s) B) as [_ B'].
+  unfold after_corr in B'. rewrite with_cs_cfg in B'. lia.
+Qed.
+
+Theorem C14_fetch_group_offsets_bound : forall group ps s r s' tps p,
+  fetch_group_offsets group ps s = (r, s') ->
+  group_fetch_tps (cs (cl s)) ps [] = Some tps -> fetch_req group s tps = Ok p ->
+  attempts (frame p) s s' <= Z.max 1 (retry_max_attempts (cfg (cl s))) + interruptions s s'.
+Proof.
+  intros group ps s r s' tps p H Ht Hp. rewrite fetch_group_offsets_unfold, Ht in H.
+  destruct (_ <? 0).
+  { inversion H; subst. unfold attempts, interruptions. rewrite performed_refl, consumed_refl. cbn. lia. }
+  rewrite Hp, group_fetch_loop_eq in H.
+  assert (Hs : gc_short (frame p) (client_id (cfg (cl (after_corr s)))) group).
+  { unfold fetch_req in Hp. apply fetch_req_gc_short in Hp. exact Hp. }
+  destruct (retry_loop_bound _ _ _ _ _ _ _ _ _ H Hs) as [B _].
+  pose proof (att_le_trans _ _ _ _ _ _ (after_corr_quiet (frame p) s) B) as [_ B'].
+  unfold after_corr in B'. rewrite with_cs_cfg in B'. lia.
+Qed.
+
+Theorem C14_get_group_coordinator_bound : forall group s r s' p,
+  get_group_coordinator group s = (r, s') ->
+  enc_group_coordinator_req (fst (next_correlation_id (cs (cl s)))) (client_id (cfg (cl s))) group = Ok p ->
+  attempts (frame p) s s' <= Z.max 1 (retry_max_attempts (cfg (cl s))) + interruptions s s'.
+Proof.
+  intros group s r s' p H Hp. rewrite ggc_unfold in H. destruct (group_coordinator (cs (cl s)) group).
+  - inversion H; subst. unfold attempts, interruptions. rewrite performed_refl, consumed_refl. cbn. lia.
+  - rewrite Hp in H. pose proof (C14_lookup_bound_partial _ _ _ _ _ _ _ H) as B.
+    pose proof (with_cs_ext s (snd (next_correlation_id (cs (cl s))))) as E0.
+    pose proof (proj1 (lookup_loop_cfg _ _ _ _ _ _ _ H)) as E1.
+    pose proof (with_cs_seg s (snd (next_correlation_id (cs (cl s))))) as Hs.
+    unfold attempts, interruptions in *. rewrite (performed_app _ _ _ E0 E1), (consumed_app _ _ _ E0 E1).
+    rewrite (seg_performed _ _ _ _ Hs), (seg_consumed _ _ _ _ Hs). cbn [app].
+    rewrite with_cs_cfg in B. lia.
+Qed.
+
+Print Assumptions C14_lookup_bound_partial.
+Print Assumptions C14_lookup_bound.
+Print Assumptions C14_lookup_bound_refuted.
+Print Assumptions C14_lookup_result.
+Print Assumptions C14_lookup_ok_iff.
+Print Assumptions C14_commit_bound_partial.
+Print Assumptions C14_commit_bound.
+Print Assumptions C14_commit_bound_refuted.
+Print Assumptions C14_commit_result.
+Print Assumptions C14_group_fetch_bound_partial.
+Print Assumptions C14_group_fetch_bound.
+Print Assumptions C14_group_fetch_result.
+Print Assumptions C14_cfg_unchanged.
+Print Assumptions C14_relookup.
+Print Assumptions C14_relookup_group_fetch.
+Print Assumptions C14_no_out_of_fuel.
+Print Assumptions C14_calls_no_out_of_fuel.
+Print Assumptions C14_code15_not_retried_on_commit.
+Print Assumptions C14_code15_not_retried_on_group_fetch.
+Print Assumptions C14_commit_offsets_bound.
+Print Assumptions C14_fetch_group_offsets_bound.
+Print Assumptions C14_get_group_coordinator_bound.
